@@ -268,8 +268,9 @@ def run(prog: Program, res: Result, tier: str) -> None:
         res.bad("R5", fn, cws[0] if cws else fn.node, f"extract_bands: {why}", key=key, construct="extract_bands selection")
 
     # ---- R6 declared width (shared with C04.R1) ------------------------------------------------------------------------------------
-    from .c04 import check_declared_width
+    from .c04 import check_declared_width, check_bitorder_pairing
     check_declared_width(prog, res, "R6")
+    check_bitorder_pairing(prog, res, "R6")
 
     res.assumptions += ["read_plan delivers the selected range once in blocks of at most gulp samples (C01)",
                         "nsub divides nchans and ffactor divides nchans (the property's own quantifier)"]
